@@ -1334,6 +1334,30 @@ func selectRules(c *core.Ctx, codecs map[string]method05) {
 							decodeCalls = map[*ssa.Call]string{}
 						}
 						decodeCalls[call] = n
+						// every decoder works on the text that was handed in: the source parameter, converted, or what
+						// the package's own Unpack made of it
+						{
+							data := recv
+							if data == nil && len(call.Call.Args) > 0 {
+								data = call.Call.Args[0]
+							}
+							if call.Call.StaticCallee() != nil && call.Call.StaticCallee().Signature.Recv() == nil && len(call.Call.Args) > 0 {
+								data = call.Call.Args[0]
+							}
+							for i := 0; i < 6 && data != nil; i++ {
+								data = stripAll(e.Resolve(data))
+								inner, isCall := data.(*ssa.Call)
+								if !isCall || inner.Call.StaticCallee() == nil || len(inner.Call.Args) != 1 {
+									break
+								}
+								data = inner.Call.Args[0]
+							}
+							if data != nil && data != src {
+								if _, isTbl := data.(*ssa.Extract); !isTbl {
+									dp.problems = append(dp.problems, "a decoder ("+n+") is applied to "+describeValue(data)+", not to the text handed in")
+								}
+							}
+						}
 						// a further decoder runs only after the previous one has failed on this path
 						if strings.HasSuffix(n, ".Decode") || strings.HasSuffix(n, ").Decode") {
 							if lastDecode != nil {
